@@ -20,6 +20,7 @@ func c16(c *Ctx) {
 	c16R1(c)
 	c16R2(c)
 	c16R4(c)
+	c16R6(c)
 	c16R5(c)
 }
 
@@ -412,6 +413,19 @@ func c16R4(c *Ctx) {
 			})
 			if len(undos) > 0 {
 				du := undos[0]
+				// at most once: with the deferred put-back in place no explicit one runs as well (the
+				// generator would hold the token twice and hand it to two different requests)
+				var extra []string
+				ast.Inspect(fn.Decl.Body, func(k ast.Node) bool {
+					if k == ast.Node(du.stmt) {
+						return false
+					}
+					if call, ok := k.(*ast.CallExpr); ok && isRB(call) {
+						extra = append(extra, p.Pos(call))
+					}
+					return true
+				})
+				c.Check(len(extra) == 0 && len(undos) == 1, "C16.R4", fn.Key()+": the token is put back at most once", p.Pos(du.stmt), fn.Key(), "one deferred put-back and no explicit one", fmt.Sprintf("deferred put-backs: %d, explicit put-backs at %v", len(undos), extra))
 				// registered before the cloud call; every failure return after the builder is covered
 				w := q.Escapes(nil, isExactly(W), isExactly(du.stmt), nil)
 				c.Check(w == nil, "C16.R4", fn.Key()+": deferred put-back registered before the cloud call", p.Pos(du.stmt), fn.Key(), "must-pass: defer → cloud call", "path: "+p.describePath(w))
@@ -453,6 +467,9 @@ func c16R4(c *Ctx) {
 			}
 			w := q.Escapes(isExactly(arm.Cond), exit, rbNode, nil)
 			c.Check(w == nil, "C16.R4", fn.Key()+": every failure exit of the cloud call puts the token back", p.Pos(arm), fn.Key(), "must-pass: err != nil → rollBack() → return", "path without put-back: "+p.describePath(w))
+			q.Prune = nil
+			w2 := q.Escapes(rbNode, rbNode, nil, nil)
+			c.Check(w2 == nil, "C16.R4", fn.Key()+": the token is put back at most once", p.Pos(arm), fn.Key(), "no path passes two put-backs", "path: "+p.describePath(w2))
 			// and no return lies between the builder's own error arm and W (nothing fallible without put-back)
 			barm := errArm(fn, lhs[2], cs.Call.End())
 			for _, r := range declReturns(fn.Decl.Body) {
